@@ -1,6 +1,5 @@
-import GoldilocksVerif.Isa.X86
-import GoldilocksVerif.Isa.Vec
-import GoldilocksVerif.Isa.Avx2
-import GoldilocksVerif.Isa.Avx512
-import GoldilocksVerif.Model.Region
 import GoldilocksVerif.Props.C01
+import GoldilocksVerif.Props.C02
+import GoldilocksVerif.Props.C11
+import GoldilocksVerif.Props.C13
+import GoldilocksVerif.Props.C14
